@@ -1055,6 +1055,7 @@ def r_thresholds(ctx):
                                       'thresholds are propagated along the inbound arcs of the node whose theta is used', 'theta propagation does not iterate the inbound arcs of the child whose theta it uses')
                 ctx.check(form is not None, 'R09.5', '%s/theta-write/%s' % (tag, form or 'unknown'), body, body.loc(*pt), 'theta write of an allowed form: %s' % form,
                           'a write to Node.theta is not of an allowed form: theta := %s' % M.show(v)[:300])
+        loops_exhaust(ctx, 'R09.5', tag + '/thresholds', b, 'the bottom-up threshold computation (terminal nodes; layers, then nodes)')
         # propagation is not optional either: every node of the bottom-up traversal that holds a threshold hands it to ALL its parents; an
         # iteration may end without walking the node's inbound arcs only for a deleted node, a node without threshold, or the end of its
         # inbound list (closed list of reasons: an extra `continue` — "inexact nodes are never cached" — also stops the thresholds of
@@ -1424,6 +1425,7 @@ def r_cutset(ctx):
                 if a_[0] == 'cmp' and M.contains(a_[2], lambda x: self_field(x, 'lel')) and M.contains(a_[1], lambda x: _layers_len(x)) and not (a_[3] <= frozenset('>')):
                     return True
             return False
+        loops_exhaust(ctx, 'R08.5', tag + '/local-bounds', lb, 'the bottom-up local-bound traversal (layers, then nodes)')
         trav = [lb.term_point(bb) for (bb, t) in lb.calls_to('rev')]
         cut_ = _cut_edges(lb, lb_exempt)
         r_ = lb.reach([(0, 0)], cut_edges=cut_, avoid=trav)
@@ -1443,6 +1445,7 @@ def r_cutset(ctx):
                       '_finalize runs %s on every path' % step_, '_finalize can skip %s (a new early exit / guard in front of that step): what the step computes (best nodes, cut-set, local bounds, thresholds) is missing or stale for some compilations' % step_)
         # ---- R08.2 frontier admission ------------------------------------------------------------
         fb = ctx.body(adt, '_compute_frontier_cutset')
+        loops_exhaust(ctx, 'R08.2', tag + '/frontier', fb, 'the bottom-up frontier construction (layers, then nodes)')
         pushes = [(c, bb, t) for c in ctx.unit(fb) for (bb, t) in c.calls_to('push') if self_field(c.origin.operand(t['args'][0], c.term_point(bb)), 'cutset')]
         if ctx.floor('R08.2', tag + '/frontier-push', fb, len(pushes), 1, 'push onto cutset in the frontier construction'):
             (c, bb, t) = pushes[0]
